@@ -29,7 +29,8 @@ class NotifyServer:
                     len(self.connections) - 1,
                 )
 
-                for peer in self.connections.values():
+                # drain() can suspend this loop: peers may come and go meanwhile
+                for peer in list(self.connections.values()):
                     if peer != writer:
                         peer.write(data)
                         await peer.drain()
